@@ -420,6 +420,22 @@ def directed_streams(rng):
         if i % 3 == 2:
             toks.append(("match", 3 + (i * 11) % 256, 1 + (i * 97) % min(len(toks), 700)))
     mk("deep15_matches", [("dynamic", toks, {"shape": "deep"})])
+    # matches at distance ring-1 / ring / 1 / 2 for small rings (names carry the ring size): source one byte
+    # ahead of the write position in a ring of that size
+    for L in (64, 256, 1024):
+        toks = [("lit", (i * 13 + 5) & 255) for i in range(L + 6)]
+        toks += [("match", 20, L - 1), ("match", 5, L), ("lit", 7), ("match", 258, L - 1), ("match", 9, 1), ("match", 11, 2),
+                 ("match", 4, L - 1), ("match", 3, L), ("lit", 9), ("match", 70, L - 2)]
+        mk("ring%d_edge" % L, [("fixed", toks, {})])
+    # a long match, then a short stored block, then more: output-full suspensions inside the match land within a
+    # few input bytes of the stored block's LEN/NLEN
+    for n in (3, 20, 41):
+        for sl in (1, 5, 30):
+            mk("match_then_stored_n%d_s%d" % (n, sl),
+               [("fixed", [("lit", 33 + (i % 60)) for i in range(n)] + [("match", 258, 1), ("match", 200, n)], {}),
+                ("stored", [("lit", 100 + j) for j in range(sl)], {}),
+                ("fixed", [("lit", 1), ("lit", 2), ("lit", 3), ("match", 30, 2)], {}),
+                ("dynamic", [("lit", 65 + (i % 7)) for i in range(40)] + [("match", 40, 7)], {})])
     for align in range(8):
         bw = BitWriter()
         out = bytearray()
